@@ -13,7 +13,17 @@ if '--tier' in sys.argv:
 seeds = args or sorted(os.listdir(ROOT + '/seeded'))
 seeds = [s for s in seeds if os.path.isdir(ROOT + '/seeded/' + s)]
 resf = ROOT + '/seeded/RESULTS.json'
-res = json.load(open(resf)) if os.path.exists(resf) else {}
+if '--results' in sys.argv:
+    resf = sys.argv[sys.argv.index('--results') + 1]
+    seeds = [s for s in seeds if s != resf]
+res = {}
+
+
+def save(key, val):
+    # merge-on-write so that two concurrent runs do not clobber each other
+    cur = json.load(open(resf)) if os.path.exists(resf) else {}
+    cur[key] = val
+    json.dump(cur, open(resf, 'w'), indent=1, sort_keys=True)
 head = subprocess.check_output(['git', '-C', '/repo', 'log', '--format=%h', '-1']).decode().strip()
 for s in seeds:
     pid = s.split('-')[0]
@@ -24,7 +34,7 @@ for s in seeds:
         ap = subprocess.run(['git', '-C', wt, 'apply', '%s/seeded/%s/patch.diff' % (ROOT, s)],
                             capture_output=True, text=True)
         if ap.returncode:
-            res[s] = {'status': 'patch-does-not-apply', 'repo': head}
+            save(s, {'status': 'patch-does-not-apply', 'repo': head})
             print(s, 'PATCH DOES NOT APPLY')
             continue
         t0 = time.time()
@@ -36,9 +46,9 @@ for s in seeds:
                   'detected': r.returncode == 1,
                   'first_violation': {'shard': m.group(1), 'clause': m.group(2)} if m else None,
                   'wall_s': round(time.time() - t0, 1), 'repo': head}
+        save(s, res[s])
         print(s, 'exit=%d' % r.returncode, (m.group(2)[:90] if m else ''), '%.0fs' % (time.time() - t0),
               flush=True)
     finally:
         subprocess.run('git -C /repo worktree remove --force %s' % wt, shell=True,
                        capture_output=True)
-    json.dump(res, open(resf, 'w'), indent=1, sort_keys=True)
